@@ -120,6 +120,7 @@ let () =
           | 1 -> run (sys_setfd fd (z_of_int arg))
           | 2 -> run (sys_getfl fd)
           | 3 -> run (sys_setfl fd (z_of_int arg))
+          | 5 -> run (sys_dupfd fd (z_of_int arg))
           | _ -> flag "unmodelled-fcntl"; raise (Crash_exn 2)));
   reg "sim_close" (fun (fd : int) -> int_of_z (run (sys_close (z_of_int fd))));
   reg "sim_dup2" (fun (a : int) (b : int) -> int_of_z (run (sys_dup2 (z_of_int a) (z_of_int b))));
@@ -145,8 +146,11 @@ let () =
       int_of_z (run (sys_execvp (str_of_string p) (List.map str_of_string (Array.to_list argv)))));
   reg "sim__exit" (fun (c : int) -> run (sys__exit (z_of_int c)));
   reg "sim_waitpid" (fun (pid : int) (opts : int) ->
-      if opts <> 0 then (flag "unmodelled-waitpid-options"; child_send 2 2; raise (Crash_exn 2));
-      let (r, st) = run (sys_waitpid (z_of_int pid)) in (int_of_z r, int_of_z st));
+      if opts = 1 && pid > 0 then (let (r, st) = run (sys_waitpid_nohang (z_of_int pid)) in (int_of_z r, int_of_z st))
+      else begin
+        if opts <> 0 then (flag "unmodelled-waitpid-options"; child_send 2 2; raise (Crash_exn 2));
+        let (r, st) = run (sys_waitpid (z_of_int pid)) in (int_of_z r, int_of_z st)
+      end);
   reg "sim_kill" (fun (pid : int) (s : int) -> int_of_z (run (sys_kill (z_of_int pid) (z_of_int s))));
   reg "sim_chdir" (fun (p : string) -> int_of_z (run (sys_chdir (str_of_string p))));
   reg "sim_getcwd" (fun (n : int) ->
